@@ -1262,7 +1262,15 @@ Definition head_ok (own : Z) (hs : list (option handle)) (pend : option Z) (t : 
   | VAbandon => pend <> None
   | VCrash | VOther => True
   end /\
-  match ts_in t with InAdd k => nth_error hs k = Some None /\ pend = None | _ => True end.
+  match ts_in t with
+  | InAdd k => nth_error hs k = Some None /\ pend = None
+  | InResetAddr _ _ => False                       (* histories without reset_address: see no_reset *)
+  | _ => True
+  end.
+
+(* histories without the user call reset_address (added to the model after phase 1) *)
+Definition is_reset_in (i : tr_in) : bool := match i with InResetAddr _ _ => true | _ => false end.
+Definition no_reset (ins : list tr_in) : bool := forallb (fun i => negb (is_reset_in i)) ins.
 
 Definition hs_next (hs : list (option handle)) (t : tstep) : list (option handle) :=
   match ts_in t, ts_out t with
@@ -1272,11 +1280,15 @@ Definition hs_next (hs : list (option handle)) (t : tstep) : list (option handle
 
 Lemma heads : forall own hs pend t r,
   contract_from own pend (t :: r) = true -> driver_from hs pend (t :: r) = true -> view_of t <> VCrash ->
+  has_reset (t :: r) = false ->
+  has_reset r = false /\
   head_ok own hs pend t /\
   contract_from own (pend_next_v pend (view_of t)) r = true /\
   driver_from (hs_next hs t) (pend_next_v pend (view_of t)) r = true.
 Proof.
-  intros own hs pend t r Hc Hd Hv. cbn [contract_from driver_from] in Hc, Hd.
+  intros own hs pend t r Hc Hd Hv Hnr. cbn [contract_from driver_from] in Hc, Hd.
+  unfold has_reset in Hnr. cbn [existsb] in Hnr. apply orb_false_iff in Hnr. destruct Hnr as [Hnr1 Hnr2].
+  split; [exact Hnr2|].
   destruct (ts_raw t); [discriminate Hc|].
   destruct (is_bad (ts_out t)) eqn:Hb; [discriminate Hd|].
   unfold head_ok, hs_next. rewrite Hb.
@@ -1296,7 +1308,7 @@ Proof.
     - destruct pend as [d|]; [|discriminate Hc]. split; [discriminate|exact Hc].
     - auto. }
   destruct Hview as [Hv1 Hv2]. split; [split; [reflexivity|split; [exact Hv1|]]|split; [exact Hv2|]].
-  - destruct (ts_in t); try exact Logic.I.
+  - destruct (ts_in t); try exact Logic.I; [|discriminate Hnr1].
     destruct (nth_error hs k) as [[h|]|]; try discriminate Hd. destruct pend; [discriminate Hd|]. auto.
   - destruct (ts_in t) eqn:Ei; try exact Hd.
     destruct (nth_error hs k) as [[h|]|]; try discriminate Hd. destruct pend as [d|]; [discriminate Hd|].
@@ -1342,6 +1354,19 @@ Proof.
   - destruct Ho as [Ho|Ho]; [|rewrite Ho in Hb; discriminate Hb]. rewrite Ho. destruct (decode wire) as [[| |tg n]| |]; discriminate.
 Qed.
 
+Lemma model_run_no_reset : forall ins s s' tr,
+  model_run s ins = Ok (s', tr) -> no_reset ins = true -> has_reset tr = false.
+Proof.
+  induction ins as [|i ins IH]; intros s s' tr H Hn; cbn [model_run] in H.
+  - inversion H; subst. reflexivity.
+  - destruct (model_step s i) as [[s1 t]| |] eqn:Hs; cbn [bind] in H; try discriminate H.
+    destruct (model_run s1 ins) as [[s2 tr1]| |] eqn:Hr; cbn [bind] in H; try discriminate H.
+    inversion H; subst s' tr. cbn [no_reset forallb] in Hn. apply andb_true_iff in Hn. destruct Hn as [H1 H2].
+    unfold has_reset. cbn [existsb]. destruct (model_out_shape _ _ _ _ Hs) as (E & _). rewrite E.
+    apply orb_false_iff. split; [destruct i; try reflexivity; discriminate H1|].
+    apply (IH _ _ _ Hr H2).
+Qed.
+
 (* ------------------------------------------------------------------ the generic induction *)
 
 Section Generic.
@@ -1359,9 +1384,10 @@ Hypothesis Hstep : forall s gs pend g i t s' n,
 Lemma sound_generic : forall ins s gs pend g s' tr n,
   R s gs pend g -> model_run s ins = Ok (s', tr) ->
   contract_from (p_address (cf_params c)) pend tr = true -> driver_from (sy_handles s) pend tr = true ->
+  has_reset tr = false ->
   run_monitor ostep g n tr = None.
 Proof.
-  induction ins as [|i ins IH]; intros s gs pend g s' tr n HR Hrun Hct Hdr; cbn [model_run] in Hrun.
+  induction ins as [|i ins IH]; intros s gs pend g s' tr n HR Hrun Hct Hdr Hnr; cbn [model_run] in Hrun.
   - inversion Hrun; subst. reflexivity.
   - destruct (model_step s i) as [[s1 t]| |] eqn:Hs; cbn [bind] in Hrun; try discriminate Hrun.
     destruct (model_run s1 ins) as [[s2 tr1]| |] eqn:Hr; cbn [bind] in Hrun; try discriminate Hrun.
@@ -1369,9 +1395,9 @@ Proof.
     assert (Hb : is_bad (ts_out t) = false).
     { cbn [driver_from] in Hdr. destruct (is_bad (ts_out t)); [discriminate Hdr|reflexivity]. }
     pose proof (model_view_not_crash _ _ _ _ Hs Hb) as Hv.
-    destruct (heads _ _ _ _ _ Hct Hdr Hv) as (Hh & Hct' & Hdr').
+    destruct (heads _ _ _ _ _ Hct Hdr Hv Hnr) as (Hnr' & Hh & Hct' & Hdr').
     destruct (Hstep _ _ _ _ _ _ _ n HR Hs Hh) as (gs' & g' & Ho & HR' & Hhs).
-    cbn [run_monitor]. rewrite Ho. rewrite <- Hhs in Hdr'. apply (IH _ _ _ _ _ _ _ HR' Hr Hct' Hdr').
+    cbn [run_monitor]. rewrite Ho. rewrite <- Hhs in Hdr'. apply (IH _ _ _ _ _ _ _ HR' Hr Hct' Hdr' Hnr').
 Qed.
 
 End Generic.
@@ -2070,7 +2096,7 @@ Proof.
   intros s gs pend i t s' [I G] Hstep Hhead.
   pose proof (co_auto _ Hc) as Hauto. pose proof (co_retry _ Hc) as Hmax.
   pose proof Hhead as (Hbad & Hview & Hadd).
-  destruct i as [now hp|now addr wire|now addr| |k|k q|st| |k|k wire|k|k si rd sd dp f1 f2 ext ident|].
+  destruct i as [now hp|now addr wire|now addr| |k|k q|st| |k|k wire|k|k si rd sd dp f1 f2 ext ident| |k a].
   - (* transmit_telegram *)
     destruct (step_tx c s now hp s' t I Hauto Hstep) as (m1 & o & Htx & -> & ->).
     pose proof (tx_view_pend _ _ _ _ _ _ _ _ _ Hhead) as Hp. subst pend.
@@ -2309,6 +2335,8 @@ Proof.
   - destruct (step_env s InClean s' t eq_refl Hstep) as (Hcf & Hm & Hh & o & -> & Ho).
     apply (env_trans s gs pend s' InClean o (conj I G) Hcf Hm Hh Logic.I).
     destruct o; try contradiction; reflexivity.
+  - (* reset_address: excluded (no_reset) *)
+    exfalso. destruct (model_out_shape _ _ _ _ Hstep) as (E & _). rewrite E in Hadd. exact Hadd.
 Qed.
 
 End Step.
@@ -2527,11 +2555,12 @@ Proof.
 Qed.
 
 Theorem c08_oracle_sound : forall s0 ins s' tr,
-  init_sys c = Ok s0 -> model_run s0 ins = Ok (s', tr) ->
+  init_sys c = Ok s0 -> no_reset ins = true -> model_run s0 ins = Ok (s', tr) ->
   contract_ok c tr = true -> driver_ok (sy_handles s0) tr = true ->
   c08_monitor c tr = None.
 Proof.
-  intros s0 ins s' tr Hinit Hrun Hct Hdr.
+  intros s0 ins s' tr Hinit Hnr Hrun Hct Hdr.
+  pose proof (model_run_no_reset _ _ _ _ Hrun Hnr) as Hnr'.
   destruct (init_invariants c s0 Hc Hinit) as (I0 & G0 & _ & _ & Hfresh).
   unfold c08_monitor.
   apply (sound_generic c c08g (c08_step (Z.to_nat (p_max_retry (cf_params c)))) Rel8 c08_sound_step
@@ -2836,11 +2865,12 @@ Proof.
 Qed.
 
 Theorem c03_oracle_sound : forall s0 ins s' tr,
-  init_sys c = Ok s0 -> model_run s0 ins = Ok (s', tr) ->
+  init_sys c = Ok s0 -> no_reset ins = true -> model_run s0 ins = Ok (s', tr) ->
   contract_ok c tr = true -> driver_ok (sy_handles s0) tr = true ->
   c03_monitor c tr = None.
 Proof.
-  intros s0 ins s' tr Hinit Hrun Hct Hdr.
+  intros s0 ins s' tr Hinit Hnr Hrun Hct Hdr.
+  pose proof (model_run_no_reset _ _ _ _ Hrun Hnr) as Hnr'.
   destruct (init_invariants c s0 Hc Hinit) as (I0 & G0 & _ & _ & Hfresh).
   unfold c03_monitor.
   apply (sound_generic c c03g (c03_step c) Rel3 c03_sound_step
@@ -3391,11 +3421,12 @@ Proof.
 Qed.
 
 Theorem c04_oracle_sound : forall s0 ins s' tr,
-  init_sys c = Ok s0 -> model_run s0 ins = Ok (s', tr) ->
+  init_sys c = Ok s0 -> no_reset ins = true -> model_run s0 ins = Ok (s', tr) ->
   contract_ok c tr = true -> driver_ok (sy_handles s0) tr = true ->
   c04_monitor c (observe s0) tr = None.
 Proof.
-  intros s0 ins s' tr Hinit Hrun Hct Hdr.
+  intros s0 ins s' tr Hinit Hnr Hrun Hct Hdr.
+  pose proof (model_run_no_reset _ _ _ _ Hrun Hnr) as Hnr'.
   destruct (init_invariants c s0 Hc Hinit) as (I0 & G0 & Hop0 & _ & Hfresh).
   unfold c04_monitor.
   apply (sound_generic c c04g (c04_step c) Rel4 c04_sound_step
@@ -4566,7 +4597,7 @@ Proof.
   { intros Hnadd H1 H2 H3 H4 H5 H6 H7 H8.
     destruct (c14_static c s gs pend g t s' gs' n HR HB' H1 Hnadd H2 H3 H4 H5 H6 H7 Hto H8) as (g' & Hg1 & Hg2).
     exists gs', g'. auto. }
-  destruct i as [now hp|now addr wire|now addr| |k|k q|st| |k|k wire|k|k si rd sd dp f1 f2 ext ident|].
+  destruct i as [now hp|now addr wire|now addr| |k|k q|st| |k|k wire|k|k si rd sd dp f1 f2 ext ident| |k a].
   - (* transmit_telegram *)
     destruct (step_tx c s now hp s' t I Hauto Hstep) as (m1 & o & Htx & -> & ->).
     pose proof (tx_view_pend _ _ _ _ _ _ _ _ _ Hhead) as Hp. subst pend.
@@ -4702,14 +4733,18 @@ Proof.
       |rewrite Hm; reflexivity|rewrite Hm; reflexivity
       |left; destruct o; try contradiction; reflexivity|reflexivity|reflexivity
       |destruct o; try contradiction; exact Logic.I].
+  - (* reset_address: excluded (no_reset) *)
+    exfalso. destruct Hhead as (_ & _ & Hx). destruct (model_out_shape _ _ _ _ Hstep) as (E & _). rewrite E in Hx. exact Hx.
 Qed.
 
+
 Theorem c14_oracle_sound : forall s0 ins s' tr,
-  init_sys c = Ok s0 -> model_run s0 ins = Ok (s', tr) ->
+  init_sys c = Ok s0 -> no_reset ins = true -> model_run s0 ins = Ok (s', tr) ->
   contract_ok c tr = true -> driver_ok (sy_handles s0) tr = true ->
   c14_monitor c (sy_handles s0) tr = None.
 Proof.
-  intros s0 ins s' tr Hinit Hrun Hct Hdr.
+  intros s0 ins s' tr Hinit Hnr Hrun Hct Hdr.
+  pose proof (model_run_no_reset _ _ _ _ Hrun Hnr) as Hnr'.
   destruct (init_invariants c s0 Hc Hinit) as (I0 & G0 & Hop0 & Hcy0 & Hfresh).
   unfold c14_monitor.
   apply (sound_generic c c14g (c14_step c) (Rel14 c) c14_sound_step
@@ -4758,7 +4793,7 @@ Qed.
 Lemma oracle_sound_example :
   conf_ok ex_conf /\
   exists s0 s' tr, init_sys ex_conf = Ok s0 /\ model_run s0 ex_ins = Ok (s', tr) /\
-    contract_ok ex_conf tr = true /\ driver_ok (sy_handles s0) tr = true /\ length tr = 22%nat /\
+    no_reset ex_ins = true /\ contract_ok ex_conf tr = true /\ driver_ok (sy_handles s0) tr = true /\ length tr = 22%nat /\
     map step_event tr = [None; None; None; Some (7, EvOnline); None; None; None; None; None; None; None; None; None;
                          Some (7, EvOffline); None; None; None; None; None; None; None; None] /\
     map step_cc tr = [false; false; false; true; false; false; false; false; false; false; false; false; false; false;
@@ -4773,3 +4808,108 @@ Proof.
   - exfalso. vm_compute in E0. inversion E0; subst s0. vm_compute in E1. discriminate E1.
   - exfalso. vm_compute in E0. inversion E0; subst s0. vm_compute in E1. discriminate E1.
 Qed.
+
+(* PART 19: the monitors the driver runs (reset_address wrappers) are the plain monitors on histories without
+   reset_address *)
+
+Definition step_is_reset (s : tstep) : bool := match ts_in s with InResetAddr _ _ => true | _ => false end.
+
+Lemma reset_of_none : forall c s, step_is_reset s = false -> reset_of c s = None.
+Proof. intros c s H. unfold reset_of, step_is_reset in *. destruct (ts_in s); try reflexivity. discriminate H. Qed.
+
+Section Wrap.
+Variable St : Type.
+Variable c : conf.
+Variable step : St -> nat -> tstep -> St + Z.
+Variable step_ra : conf * St -> nat -> tstep -> (conf * St) + Z.
+Hypothesis Hwrap : forall g i s, step_is_reset s = false ->
+  step_ra (c, g) i s = match step g i s with inl g' => inl (c, g') | inr code => inr code end.
+
+Lemma run_monitor_wrap : forall l g i, has_reset l = false ->
+  run_monitor step_ra (c, g) i l = run_monitor step g i l.
+Proof.
+  induction l as [|s l IH]; intros g i H; [reflexivity|].
+  unfold has_reset in H. cbn [existsb] in H. apply orb_false_iff in H. destruct H as [H1 H2].
+  cbn [run_monitor]. rewrite (Hwrap g i s H1). destruct (step g i s) as [g'|code]; [apply IH; exact H2|reflexivity].
+Qed.
+End Wrap.
+
+Theorem c03_ra_agrees : forall c l, has_reset l = false -> c03_monitor_ra c l = c03_monitor c l.
+Proof.
+  intros c l H. unfold c03_monitor_ra, c03_monitor. apply run_monitor_wrap; [|exact H].
+  intros g i s Hs. unfold c03_step_ra. rewrite (reset_of_none c s Hs). reflexivity.
+Qed.
+
+Theorem c08_ra_agrees : forall c l, has_reset l = false -> c08_monitor_ra c l = c08_monitor c l.
+Proof.
+  intros c l H. unfold c08_monitor_ra, c08_monitor. apply run_monitor_wrap; [|exact H].
+  intros g i s Hs. unfold c08_step_ra. rewrite (reset_of_none c s Hs). reflexivity.
+Qed.
+
+Theorem c04_ra_agrees : forall c obs0 l, has_reset l = false -> c04_monitor_ra c obs0 l = c04_monitor c obs0 l.
+Proof.
+  intros c obs0 l H. unfold c04_monitor_ra, c04_monitor. apply run_monitor_wrap; [|exact H].
+  intros g i s Hs. unfold c04_step_ra. rewrite (reset_of_none c s Hs). reflexivity.
+Qed.
+
+Theorem c14_ra_agrees : forall c hs0 l, has_reset l = false -> c14_monitor_ra c hs0 l = c14_monitor c hs0 l.
+Proof.
+  intros c hs0 l H. unfold c14_monitor_ra, c14_monitor. apply run_monitor_wrap; [|exact H].
+  intros g i s Hs. unfold c14_step_ra. rewrite (reset_of_none c s Hs). reflexivity.
+Qed.
+
+Theorem c07_ra_agrees : forall c l, has_reset l = false -> c07_monitor_ra c l = c07_monitor c l.
+Proof.
+  intros c l H. unfold c07_monitor_ra, c07_monitor.
+  destruct (ts_op (last l (mkStep InClean false OutUnit None [] OpStop))); try reflexivity;
+    (apply run_monitor_wrap; [|exact H]; intros g i s Hs; unfold c07_step_ra; rewrite (reset_of_none c s Hs); reflexivity).
+Qed.
+
+Lemma ra_sane_plain : forall c l, has_reset l = false -> ra_sane c l = conf_sane c.
+Proof.
+  intros c l. induction l as [|s l IH]; intro H; [reflexivity|].
+  unfold has_reset in H. cbn [existsb] in H. apply orb_false_iff in H. destruct H as [H1 H2].
+  cbn [ra_sane]. rewrite (reset_of_none c s H1). rewrite (IH H2). destruct (conf_sane c); reflexivity.
+Qed.
+
+(* soundness for what the driver runs, on histories without reset_address *)
+Section RaSound.
+Variable c : conf.
+Hypothesis Hc : conf_ok c.
+
+Theorem c03_oracle_sound_ra0 : forall s0 ins s' tr,
+  init_sys c = Ok s0 -> no_reset ins = true -> model_run s0 ins = Ok (s', tr) ->
+  contract_ok c tr = true -> driver_ok (sy_handles s0) tr = true ->
+  c03_monitor_ra c tr = None.
+Proof.
+  intros s0 ins s' tr H0 Hn Hr Hct Hd. rewrite (c03_ra_agrees c tr (model_run_no_reset _ _ _ _ Hr Hn)).
+  apply (c03_oracle_sound c Hc s0 ins s' tr); assumption.
+Qed.
+
+Theorem c08_oracle_sound_ra0 : forall s0 ins s' tr,
+  init_sys c = Ok s0 -> no_reset ins = true -> model_run s0 ins = Ok (s', tr) ->
+  contract_ok c tr = true -> driver_ok (sy_handles s0) tr = true ->
+  c08_monitor_ra c tr = None.
+Proof.
+  intros s0 ins s' tr H0 Hn Hr Hct Hd. rewrite (c08_ra_agrees c tr (model_run_no_reset _ _ _ _ Hr Hn)).
+  apply (c08_oracle_sound c Hc s0 ins s' tr); assumption.
+Qed.
+
+Theorem c04_oracle_sound_ra0 : forall s0 ins s' tr,
+  init_sys c = Ok s0 -> no_reset ins = true -> model_run s0 ins = Ok (s', tr) ->
+  contract_ok c tr = true -> driver_ok (sy_handles s0) tr = true ->
+  c04_monitor_ra c (observe s0) tr = None.
+Proof.
+  intros s0 ins s' tr H0 Hn Hr Hct Hd. rewrite (c04_ra_agrees c _ tr (model_run_no_reset _ _ _ _ Hr Hn)).
+  apply (c04_oracle_sound c Hc s0 ins s' tr); assumption.
+Qed.
+
+Theorem c14_oracle_sound_ra0 : forall s0 ins s' tr,
+  init_sys c = Ok s0 -> no_reset ins = true -> model_run s0 ins = Ok (s', tr) ->
+  contract_ok c tr = true -> driver_ok (sy_handles s0) tr = true ->
+  c14_monitor_ra c (sy_handles s0) tr = None.
+Proof.
+  intros s0 ins s' tr H0 Hn Hr Hct Hd. rewrite (c14_ra_agrees c _ tr (model_run_no_reset _ _ _ _ Hr Hn)).
+  apply (c14_oracle_sound c Hc s0 ins s' tr); assumption.
+Qed.
+End RaSound.
